@@ -93,6 +93,9 @@ pub fn generate_terminal_name(
             "Esc".to_owned()
         } else if name.starts_with(|c: char| c.is_numeric()) {
             format!("_{}", name)
+        } else if !name.contains(|c: char| c.is_alphanumeric()) {
+            // A name that consists of underscores only is no valid identifier
+            format!("Sym{}", name)
         } else {
             name
         }
